@@ -292,11 +292,11 @@ def baseline_same(r, c):
 
 
 def gen_jobs(rng, quick, consume):
-    o1 = {"tables": 1, "consume_input": consume}
-    o0 = {"tables": 0, "consume_input": consume}
-    ol = {"tables": 1, "consume_input": consume, "lexdis": True}
+    o1 = {"tables": 1, "consume_input": consume, "limit": 4}
+    o0 = {"tables": 0, "consume_input": consume, "limit": 4}
+    ol = {"tables": 1, "consume_input": consume, "lexdis": True, "limit": 4}
     opts = [o1, o0]
-    jobs = glrcases.gen_jobs(rng, True, opts, nrand=(40 if quick else 900),
+    jobs = glrcases.gen_jobs(rng, True, opts, nrand=(40 if quick else (450 if consume else 250)),
                              maxlen=(4 if quick else 6), layout_variants=True)
     if quick:
         # keep the quick tier small: sample the inputs of every job
